@@ -24,6 +24,33 @@ type Behaviour struct {
 	Flood    bool // junk datagrams every 2 ms for FloodFor
 	FloodFor time.Duration
 	Stall    bool // TCP: accept, read, never answer (until the client gives up)
+	Mangle   int  // 0 = proper reply; otherwise one of mangleNames (a reply that must not be accepted)
+}
+
+var mangleNames = []string{"", "63-bytes", "65-bytes", "128-bytes", "1024-bytes", "other-serial", "other-function", "som-0x18", "som-0x19", "empty"}
+
+func mangle(r []byte, m int) []byte {
+	switch m {
+	case 1:
+		return r[:63]
+	case 2:
+		return append(r, 0)
+	case 3:
+		return append(r, make([]byte, 64)...)
+	case 4:
+		return append(r, make([]byte, 960)...)
+	case 5:
+		r[5] ^= 0x01
+	case 6:
+		r[1] ^= 0x02
+	case 7:
+		r[0] = 0x18
+	case 8:
+		r[0] = 0x19
+	case 9:
+		return []byte{}
+	}
+	return r
 }
 
 type FarmEvent struct {
@@ -165,7 +192,7 @@ func (f *Farm) serveUDP() {
 			if d := b.Delay - time.Since(start); d > 0 {
 				time.Sleep(d)
 			}
-			f.udp.WriteToUDP(farmReply(req), from)
+			f.udp.WriteToUDP(mangle(farmReply(req), b.Mangle), from)
 		}()
 	}
 }
@@ -194,7 +221,7 @@ func (f *Farm) serveTCP() {
 				return
 			}
 			time.Sleep(b.Delay)
-			c.Write(farmReply(req))
+			c.Write(mangle(farmReply(req), b.Mangle))
 			tmp := make([]byte, 1)
 			c.SetReadDeadline(time.Now().Add(time.Second))
 			c.Read(tmp) // let the client close first
@@ -229,6 +256,10 @@ const (
 )
 
 func farmClient(f *Farm, bindPort int, T time.Duration, udpIDs, tcpIDs []uint32) uhppote.IUHPPOTE {
+	return farmClientBind(f, netip.AddrPortFrom(netip.AddrFrom4([4]byte{127, 0, 0, 1}), uint16(bindPort)), T, udpIDs, tcpIDs)
+}
+
+func farmClientBind(f *Farm, bindAP netip.AddrPort, T time.Duration, udpIDs, tcpIDs []uint32) uhppote.IUHPPOTE {
 	devs := []uhppote.Device{}
 	for _, id := range udpIDs {
 		devs = append(devs, uhppote.Device{DeviceID: id, Address: types.ControllerAddr{AddrPort: netip.AddrPortFrom(netip.AddrFrom4([4]byte{127, 0, 0, 1}), uint16(f.Port))}, Protocol: "udp"})
@@ -236,7 +267,7 @@ func farmClient(f *Farm, bindPort int, T time.Duration, udpIDs, tcpIDs []uint32)
 	for _, id := range tcpIDs {
 		devs = append(devs, uhppote.Device{DeviceID: id, Address: types.ControllerAddr{AddrPort: netip.AddrPortFrom(netip.AddrFrom4([4]byte{127, 0, 0, 1}), uint16(f.TPort))}, Protocol: "tcp"})
 	}
-	bind := types.BindAddrFrom(netip.AddrFrom4([4]byte{127, 0, 0, 1}), uint16(bindPort))
+	bind := types.BindAddrFrom(bindAP.Addr(), bindAP.Port())
 	bc := types.BroadcastAddrFrom(netip.AddrFrom4([4]byte{127, 0, 0, 1}), uint16(f.Port))
 	return uhppote.NewUHPPOTE(bind, bc, types.ListenAddrFrom(netip.AddrFrom4([4]byte{127, 0, 0, 1}), 60001), T, devs, false)
 }
